@@ -235,6 +235,11 @@ def history(draw, tier):
         init = draw(st_rows(key, pool, 14 if big else 7, min_rows=draw(st.sampled_from([0, 0, 2, 3]))))
         if how.startswith("dict"):
             ctor["drop"] = draw(_drop_st(flds))
+    if init and draw(st.integers(0, 3)) == 0:
+        # integer-typed columns: every initial number is a Python int, so the list's numeric columns are int64 while
+        # later appended rows may carry fractions (pandas then has to widen, never to truncate)
+        init = [{f: (int(round(v)) if isinstance(v, float) else v) for f, v in r.items()} for r in init]
+        ctor["ints"] = True
     ops = draw(st.lists(st_op(key, pool, big), min_size=1, max_size=16 if big else 8))
     return dict(cls=key, ctor=ctor, init=init, ops=ops)
 
@@ -494,6 +499,7 @@ def _construct(ctx, key, ctor, init):
     lc, ic, flds, hold = resolve(key)
     how = ctor["how"]
     ctx.label("ctor=" + how)
+    ctx.label("int-typed-initial-columns", bool(ctor.get("ints")))
     if how == "empty":
         n = ctor["n"]
         tl = ctx.call("empty", lc.empty, n)
@@ -624,6 +630,9 @@ def check_history(case, ctx):
                 val = _mk_list(key, rows_).df
             ctx.label("append:" + what + (",sort" if sort else ""))
             ctx.label("append-empty-list", not rows_)
+            if rows_ and n:
+                intcols = [str(c) for c, t in zip(tl.df.columns, tl.df.dtypes) if str(t).startswith("int")]
+                ctx.label("append-fraction-to-int-column:" + what, any(isinstance(r.get(c), float) and r[c] != int(r[c]) for r in rows_ for c in intcols))
             new = ctx.call("append", tl.append, val, **_kw(sort=sort))
             model = model + [dict(r) for r in rows_]
             before = [id(r) for r in model]
